@@ -23,4 +23,14 @@ theorem wiring :
     Gen.invalid_body = "nanvec = np.array([np.nan, np.nan]) ; return cls(correlation_result=correlation_result, selector=np.zeros(len(correlation_result), dtype=bool), zero=nanvec, a=nanvec, b=nanvec, indices=np.array([]))" := by
   refine ⟨rfl, rfl, rfl, rfl, rfl, rfl, rfl, rfl, rfl, rfl, rfl, rfl, rfl⟩
 
+/-- glue the model takes for granted (batch helpers / result containers as written) -- a change there is a change of the tie -/
+theorem text_pins_glue :
+    Gen.corrresult_init_body = "if refineds is None: refineds = centers ; if peak_values is None: peak_values = np.ones(len(centers)) ; if peak_elevations is None: peak_elevations = np.ones(len(centers)) ; assert all((len(centers) == len(other) for other in [refineds, peak_values, peak_elevations])) ; self.centers = centers ; self.refineds = refineds ; self.peak_values = peak_values ; self.peak_elevations = peak_elevations" ∧
+    Gen.pointsel_init_body = "self.correlation_result = correlation_result ; if selector is None: self.selector = np.ones(len(correlation_result.centers), dtype=bool) else: assert len(correlation_result.centers) == len(selector) self.selector = selector" ∧
+    Gen.pointsel_new_selector_body = "new_selector = np.copy(self.selector) ; new_selector[self.selector] = selector ; return new_selector" ∧
+    Gen.pointsel_derive_body = "if selector is None: selector = self.selector ; return PointSelection(self.correlation_result, selector)" ∧
+    Gen.match_invalid_body = "nanvec = np.array([np.nan, np.nan]) ; return cls(correlation_result=correlation_result, selector=np.zeros(len(correlation_result), dtype=bool), zero=nanvec, a=nanvec, b=nanvec, indices=np.array([]))" ∧
+    Gen.match_derive_body = "if zero is None: zero = self.zero ; if a is None: a = self.a ; if b is None: b = self.b ; if indices is None: indices = self.indices ; if selector is None: selector = self.selector ; return Match(correlation_result=self.correlation_result, selector=selector, zero=zero, a=a, b=b, indices=indices)" ∧
+    Gen.match_from_selection_body = "if selector is None: selector = point_selection.selector ; return Match(correlation_result=point_selection.correlation_result, selector=selector, zero=zero, a=a, b=b, indices=indices)" := ⟨rfl, rfl, rfl, rfl, rfl, rfl, rfl⟩
+
 end C05
